@@ -54,3 +54,51 @@ class _(Contract):
         out["other-nodes-kept-except-dropped-parents"] = L.forall(1, lambda x: L.Implies(L.And(g.N(x), x != elim, L.Not(dropped(x))), r.N(x)))
         out["no-new-nodes"] = L.forall(1, lambda x: L.Implies(r.N(x), g.N(x)))
         return out
+
+
+# ------------------------------------------------------------------------------------------------ Lemma 24 tests (structural parts)
+def _nsi(L, v):
+    """v is not intervened on itself: not counterfactual, or neither +base(v) nor -base(v) among its subscripts"""
+    b, ivs, _ = L.var_algebra()
+    L.intervene_axioms()
+    return L.Or(L.Not(L.is_cf(v)), L.And(L.Not(ivs(v, L.iv_plus(b(v)))), L.Not(ivs(v, L.iv_minus(b(v))))))
+
+
+@contract(f"{CG}.is_not_self_intervened", props=["C18"])
+class _(Contract):
+    params = {"node": "node"}
+
+    def spec(self, ex, a):
+        from y0vc.values import VBool
+        return VBool(_nsi(ex.L, a.node.t))
+
+
+@contract(f"{CG}.has_same_function", props=["C18"])
+class _(Contract):
+    """Same structural function: copies of one variable that are both, or neither, fixed by their own world's intervention."""
+    params = {"node1": "node", "node2": "node"}
+
+    def spec(self, ex, a):
+        from y0vc.values import VBool
+        L = ex.L
+        b, _, _ = L.var_algebra()
+        return VBool(L.And(b(a.node1.t) == b(a.node2.t), _nsi(L, a.node1.t) == _nsi(L, a.node2.t)))
+
+
+@contract(f"{CG}.has_same_confounders", props=["C18"])
+class _(Contract):
+    """The two nodes are joined by a bidirected edge, or neither has any bidirected edge."""
+    params = {"graph": "graph", "a": "node", "b": "node"}
+    allowed_raises = ("NetworkXError", "KeyError")
+    raises_exact = False
+
+    def raises(self, ex, a):
+        L, g = ex.L, a.graph
+        bad = L.Or(L.Not(g.N(a.a.t)), L.Not(g.N(a.b.t)))
+        return {"NetworkXError": bad, "KeyError": bad}
+
+    def spec(self, ex, a):
+        from y0vc.values import VBool
+        L, g = ex.L, a.graph
+        x, y = a.a.t, a.b.t
+        return VBool(L.Or(g.U(x, y), L.And(L.Not(L.exists(1, lambda w: g.U(x, w))), L.Not(L.exists(1, lambda w: g.U(y, w))))))
